@@ -1,6 +1,7 @@
 package eng
 
 import (
+	"runtime/debug"
 	"encoding/json"
 	"fmt"
 	"go/types"
@@ -466,6 +467,9 @@ func RunCheck(opts *CheckOpts) int {
 			defer func() {
 				if e := recover(); e != nil {
 					r.Err = fmt.Sprintf("engine panic: %v", e)
+					if os.Getenv("VP_DEBUG") != "" {
+						debug.PrintStack()
+					}
 					if opts.Verbose {
 						panic(e)
 					}
@@ -920,7 +924,13 @@ func (g *Gen) witnessTerm(w string) (*Term, error) {
 	if err != nil {
 		return nil, err
 	}
-	sc := g.specCtx(g.entry, g.entry, nil)
+	sc := g.specCtx(g.entry, g.entry, func(name string) (Val, bool) {
+		v, ok := g.callRes[name]
+		if ok && v.K == VTuple && len(v.F) > 0 {
+			return v.F[len(v.F)-1], true // the error result
+		}
+		return v, ok
+	})
 	return sc.boolTerm(e)
 }
 
